@@ -323,6 +323,9 @@ func runFwd(sc Scenario, tr *Trace, seed int64) {
 			hdr, _ := tp.ReadMIMEHeader()
 			var ns []string
 			for n := range hdr {
+				if n == "Connection" && http.Header(hdr).Get(n) == "close" {
+					continue // added by the proxy's own transport (keep-alives are off), not forwarded from the client
+				}
 				if n != "Host" && n != "User-Agent" && n != "Accept-Encoding" && n != "Content-Length" {
 					ns = append(ns, n)
 				}
